@@ -219,3 +219,7 @@ func init() {
 	prop("C15", "C15-R6")
 	prop("C11", "C15-R6") // temporary pages of the hash join
 }
+
+func init() {
+	prop("C19", "C19-R1/statistics")
+}
